@@ -335,6 +335,8 @@ struct NodeProc {
     std::uint64_t ticks = 0;
     bool ignore_sigpipe = true;
     std::function<void(en::Node&)> after_tick;   // optional observer, runs on the node's main fiber right after every tick
+    std::int64_t stall_next_message_ns = 0;      // the application's message handler is busy for this long when the next message arrives (once)
+    int stalls_in_progress = 0;
 
     void start(const std::string& name, std::uint32_t host, const en::PeerId& pid, const en::Config& c, std::int64_t tick_period_ns, std::int64_t tick_phase_ns = 0, bool listen = true) {
         id = pid; cfg = c;
@@ -348,7 +350,10 @@ struct NodeProc {
             // send would end every run here.
             if (ignore_sigpipe) ::signal(SIGPIPE, SIG_IGN);
             node = std::make_unique<en::Node>(id, cfg);
-            node->set_message_handler([this](const en::network::TransportMessage& m) { inbox.push_back(m); });
+            node->set_message_handler([this](const en::network::TransportMessage& m) {
+                if (stall_next_message_ns > 0) { const std::int64_t d = stall_next_message_ns; stall_next_message_ns = 0; ++stalls_in_progress; sk::sleep_ns(d); --stalls_in_progress; }
+                inbox.push_back(m);
+            });
             if (listen) { node->start_transport(0); port = node->transport_port(); }
         });
     }
